@@ -177,6 +177,7 @@ class Monitor:
         self.last_update = None
         self.in_second_fix = False
         self.map_dirty = True
+        self.list_key = None
         real_update = oFile.update
 
         def update(lUpdates, bUpdateMap, _real=real_update):
@@ -196,8 +197,13 @@ class Monitor:
         mon = self
 
         def toi(oFile, _real=real_toi, r=r):
-            if "C18" in mon.want and mon.map_dirty and not mon.in_second_fix:
-                mon.check_token_map(r)
+            if "C18" in mon.want and not mon.in_second_fix:
+                key = (id(oFile.lAllObjects), len(oFile.lAllObjects))
+                if key != mon.list_key:  # the token list was replaced or resized outside a rule's fix (phase-1 normalisation)
+                    mon.list_key = key
+                    mon.map_dirty = True
+                if mon.map_dirty:
+                    mon.check_token_map(r)
             lToi = _real(oFile)
             if "C18" in mon.want and lToi:
                 mon.check_toi(r, oFile, lToi)
@@ -464,6 +470,11 @@ def _flip_conf(kind):
     elif kind == "flipE":
         rules["global"] = {"case_control_statements_ends_group": "break_on_case_or_end_case", "blank_line_ends_group": "no", "comment_line_ends_group": "no",
                            "include_type_is_keyword": "yes", "aggregate_parens_ends_group": "yes", "ignore_single_line_aggregates": "yes", "align_to": "current_indent"}
+    elif kind == "flipF":
+        # rules switched off / report-only / warnings: they must stay silent resp. must not touch the file, and the rest must cope
+        rules["whitespace_001"] = {"disable": True}
+        rules["whitespace_200"] = {"disable": True}
+        rules["group"] = {"case": {"severity": "Warning"}, "alignment": {"fixable": False}, "blank_line": {"disable": True}}
     elif kind == "flipD":
         rules["global"] = {"number_of_spaces": "2+", "indent_size": 4}
     elif kind == "flipB":
@@ -489,7 +500,7 @@ def _flip_conf(kind):
 
 
 def get_conf2(name):
-    if name in ("flipA", "flipB", "flipC", "flipD", "flipE"):
+    if name in ("flipA", "flipB", "flipC", "flipD", "flipE", "flipF"):
         if name not in _CONF:
             _CONF[name] = _flip_conf(name)
         return _CONF[name]
@@ -700,9 +711,9 @@ def pick_params(prop, tier, seed):
     for k, f in enumerate(files):
         conf = "default"
         if tier == "thorough":
-            conf = ["default", "jcl", "flipA", "flipB", "flipC", "flipD", "flipE"][k % 7]
+            conf = ["default", "jcl", "flipA", "flipB", "flipC", "flipD", "flipE", "flipF"][k % 8]
         elif k % 3 == 2:
-            conf = ["jcl", "flipA", "flipB", "flipC", "flipD", "flipE"][(k // 3) % 6]
+            conf = ["jcl", "flipA", "flipB", "flipC", "flipD", "flipE", "flipF"][(k // 3) % 7]
         if isinstance(f, tuple):
             f, conf = f
         cl = code_lines(f)
@@ -725,7 +736,7 @@ def pick_params(prop, tier, seed):
 
 def l_signature(values, p, detail):
     if detail.get("kind") == "exception":
-        return "exception:%s@%s" % (detail.get("type"), (detail.get("where") or ["?"])[-1])
+        return "exception:%s@%s" % (detail.get("type"), __import__("re").sub(r":\d+:", ":", (detail.get("where") or ["?"])[-1]))
     return "vc:" + ",".join(sorted(set(detail.get("failed", []))))
 
 
